@@ -131,6 +131,41 @@ def precision_rule(repo, res):
         raise AnalysisError("float_to_str: only %d formatting constructs recognised (2 confirmed by hand)" % n)
 
 
+def state_time_rule(repo, res, RULE="RT-TIME"):
+    """StateXMLNode.create_state_node(state, node, time_step) is handed the time step separately from the state: at
+    every call the time step written must be the state's own (`<state>.time_step`, through locals) — anything else
+    (a counter, an offset from the first state) writes a time the state does not have."""
+    from ..core import canon
+
+    wmod = repo.mod("commonroad/common/writer/file_writer_xml.py")
+    owner = wmod.classes.get("StateXMLNode")
+    target = owner.methods.get("create_state_node") if owner is not None else None
+    if target is None:
+        raise AnalysisError("StateXMLNode.create_state_node missing")
+    params = [a.arg for a in target.args.args][1:]
+    if "time_step" not in params:
+        res.ok(RULE, "create_state_node takes the time step from the state itself (no separate parameter)")
+        return
+    i_state, i_time = 0, params.index("time_step")
+    for fdef in [x for x in ast.walk(wmod.tree) if isinstance(x, ast.FunctionDef)]:
+        rd = None
+        for c in walk_no_nested(fdef):
+            if not (isinstance(c, ast.Call) and isinstance(c.func, ast.Attribute) and c.func.attr == "create_state_node"):
+                continue
+            args = dict(zip(params, c.args))
+            for k in c.keywords:
+                if k.arg:
+                    args[k.arg] = k.value
+            if params[i_state] not in args or "time_step" not in args:
+                raise AnalysisError("call of create_state_node at line %d without state / time step" % c.lineno)
+            rd = rd or ReachingDefs(fdef)
+            ps = [a.arg for a in fdef.args.args]
+            st_txt = canon(args[params[i_state]], rd, rd.stmt_of(c), ps)
+            t_txt = canon(args["time_step"], rd, rd.stmt_of(c), ps)
+            qn = wmod.qualname(fdef)
+            res.check(RULE, "%s: create_state_node(%s, .., time_step=%s)" % (qn, st_txt, t_txt), t_txt == st_txt + ".time_step", wmod, c, "%s: state %s written with time %s" % (qn, st_txt, t_txt), "the time written for a state is not the state's own time step: a trajectory whose states are not consecutive (or an initial state at another time) reads back at other times", qualname=qn)
+
+
 def loop_variable_rule(repo, res, RULE, rel=None):
     """every loop of the XML reader over elements found in the document (`findall`, `iter`, children) reads its loop
     variable: a body that looks the element up again on the parent (`parent.find(tag)`) reads the *first* such element
@@ -172,6 +207,8 @@ def run(repo, res, tier):
     res.rule("RT-NAMEMAP", "attribute-name maps of writer and reader agree / invert each other", 40)
     res.rule("RT-ENUM", "text<->enum / boolean encodings are mutually inverse and exhaustive", 25)
     res.rule("RT-ORDER", "ordered collections keep their order; x,y <-> indices 0,1", 12)
+    res.rule("RT-TIME", "the time written for a state is the state's own time step at every call of create_state_node", 4)
+    state_time_rule(repo, res)
     res.rule("RT-PREC", "the number formatter keeps precision.decimals fractional digits on every path", 2)
     precision_rule(repo, res)
     res.rule("RT-KEY", "goal lanelets are keyed by the position of their goal state on both sides", 2)
